@@ -27,7 +27,8 @@
      22 role 1 (L payload) decl ORC     ... against a correct Noise peer whose identity message carries `payload`
                                         and is announced with length decl-1 (0 = the true length)
      23 mode chunk cut (L stream) ORC   WebSocket adapter (BufferedStream over tungstenite): mode 0 server role,
-                                        2 client role, 1 after accept_async (remote sends stream[..cut] first)
+                                        2 client role, 1 after accept_async (remote sends stream[..cut] first),
+                                        3 after client_async_tls (stream = the remote's response, 28-byte accept-key marker)
      24 (L user) (L (L addr)) (L datagram) ORC   one mDNS datagram handed to Mdns
      25 (L reply)                       WebRTC Noise path: with_prologue, first_message, get_remote_peer_id(reply) (feature worker)
      20 sub ..                          round trips through the library's own encoders (see rt_case)
@@ -278,7 +279,7 @@ Definition p_case : parser case :=
     else pfail
   else if kind =? 23 then
     let* mode := pN in let* chunk := pN in let* cut := pN in let* s := pL in let* o := p_orc in
-    if (2 <? mode) || (chunk =? 0) || (1048576 <? chunk) || (negb (mode =? 1) && negb (cut =? 0)) || (blen s <? cut)
+    if (3 <? mode) || (chunk =? 0) || (1048576 <? chunk) || (negb (mode =? 1) && negb (mode =? 3) && negb (cut =? 0)) || (blen s <? cut)
     then pfail else pret (CWs mode chunk cut s o)
   else if kind =? 24 then
     let* u := pL in let* l := plist pL in let* d := pL in let* o := p_orc in pret (CMdns u l d o)
@@ -482,14 +483,21 @@ Definition run (c : case) : list N :=
   | CNoiseRaw role s _ => 1 :: NOISE_BOUND :: 0 :: [noise_raw role s]
   | CNoiseActive role p d o => 1 :: NOISE_BOUND :: 0 :: noise_active role o p (dec_opt d)
   | CWs mode _ cut s o =>
-      1 :: ws_bound (blen s) :: 0 ::
-      (if mode =? 1 then
-         match ws_accept o s with
-         | Some rest => 1 :: eL (ws_run WsServer rest) ++ [1]
-         | None => [0; 0; 1]
-         end
-       else 1 :: eL (ws_run (if mode =? 0 then WsServer else WsClient) s) ++ [1])
-  | CMdns u l d o => 1 :: mdns_bound d :: 0 :: mdns_datagram u (nlen l) o d
+      (* cap = the number of bytes delivered: never more than arrived (C19_ws_delivered_bounded) *)
+      let out := if (mode =? 1) || (mode =? 3) then
+                   match ws_accept o s with
+                   | Some rest => Some (ws_run (if mode =? 1 then WsServer else WsClient) rest)
+                   | None => None
+                   end
+                 else Some (ws_run (if mode =? 0 then WsServer else WsClient) s) in
+      match out with
+      | Some b => 1 :: ws_bound (blen s) :: blen b :: 1 :: eL b ++ [1]
+      | None => 1 :: ws_bound (blen s) :: 0 :: [0; 0; 1]
+      end
+  | CMdns u l d o =>
+      (* cap = the number of addresses reported *)
+      let body := mdns_datagram u (nlen l) o d in
+      1 :: mdns_bound d :: (match body with 1 :: n :: _ => n | _ => 0 end) :: body
   | CWebNoise b => 1 :: NOISE_BOUND :: 0 :: [webrtc_noise_reply b]
   | CRt r => run_rt r
   end.
@@ -511,6 +519,8 @@ Definition cap_of (c : case) : N :=
   | CRt (RtKad _ k) => N.of_nat k
   | CRt (RtMsm _) => Consts.C03_MAX_PROTOCOLS
   | CRt (RtFrames m _) => m
+  | CWs _ _ _ s _ => blen s
+  | CMdns _ _ d _ => blen d
   | _ => 0
   end.
 Definition bound_of (c : case) : N :=
